@@ -193,23 +193,27 @@ structure ParseResult where
   diags : List Diag
 deriving Inhabited
 
+/-- parser state after `init_skip` -/
+def initState (lx : LexResult) (maxOffset : Nat) : PState :=
+  let skips := takeSkips lx.tokens
+  { toks := skips.2.1, pos := skips.2.2, current := headKind skips.2.1,
+    lastErrorSpan := (0, 0), cooldown := false, diags := lx.diags.reverse, maxOffset := maxOffset }
+
+/-- the trailing error tree: everything left after the value, if anything is left -/
+def parseTail (s1 : PState) : PState × List Item :=
+  if s1.current != .eof then
+    let s' := s1.error
+    let rest : List Item := s'.toks.map fun t => ⟨.tok t.kind t.start t.stop, isSkipTok t.kind⟩
+    (s', closeRule .error rest)
+  else (s1, [])
+
 /-- `Parser::parse`: tokens, `init_skip`, `rule_value`, the trailing error tree, `close_root` -/
 def parse (cs : List Char) : ParseResult :=
   let lx := tokenize cs
   let skips := takeSkips lx.tokens
-  let s0 : PState := { toks := skips.2.1, pos := skips.2.2, current := headKind skips.2.1,
-                       lastErrorSpan := (0, 0), cooldown := false, diags := lx.diags.reverse,
-                       maxOffset := utf8Len cs }
-  let fuel := 2 * lx.tokens.length + 4
-  let rv := ruleValue fuel s0
-  let s1 := rv.1
-  let (s2, tail) :=
-    if s1.current != .eof then
-      let s' := s1.error
-      let rest : List Item := s'.toks.map fun t => ⟨.tok t.kind t.start t.stop, isSkipTok t.kind⟩
-      (s', closeRule .error rest)
-    else (s1, [])
-  ⟨.rule .file ((skips.1 ++ rv.2 ++ tail).map (·.node)), s2.diags.reverse⟩
+  let rv := ruleValue (2 * lx.tokens.length + 4) (initState lx (utf8Len cs))
+  let tl := parseTail rv.1
+  ⟨.rule .file ((skips.1 ++ rv.2 ++ tl.2).map (·.node)), tl.1.diags.reverse⟩
 
 end ShapeVerif
 
